@@ -588,7 +588,7 @@ class Limit(Parameter):
             self.readonly = False
         if not self.description:
             self.description = f'limit for {head}'
-        if self.export.startswith('_') and PREDEFINED_ACCESSIBLES.get(head):
+        if isinstance(self.export, str) and self.export.startswith('_') and PREDEFINED_ACCESSIBLES.get(head):
             self.export = self.export[1:]
 
     def set_datatype(self, datatype):
